@@ -75,6 +75,7 @@ structure St where
   w : Net := {}
   retry : List HsRetry.St := []          -- per node
   tainted : List (Nat × Nat) := []       -- (node, addr) that had more than one timer entry (class naming only)
+  removed : List (Nat × Nat × Nat) := [] -- ghost of C31: (node, local index, remote index) of tunnels a node deleted / evicted
   deriving Inhabited
 
 /-- keep the retry specification's set of pending handshakes in step with the lifecycle (creation,
@@ -128,7 +129,9 @@ def step (s : St) (args : List String) (impl : String) : St × Out :=
             | _ => r0
           let r1view := r1.view
           let r2 := syncRetry r1 nd'
-          let s' : St := { w := w', retry := s.retry.set n r2,
+          let gone := nd.main.indexes.filterMap (fun (li, h) =>
+            if (alookup li nd'.main.indexes).map (·.id) == some h.id then none else some (n, li, h.remoteIndex))
+          let s' : St := { w := w', retry := s.retry.set n r2, removed := s.removed ++ gone,
                            tainted := ((s.tainted.filter (fun (m, a) => m != n ||
                                 (nd'.p.vpnIps.any (·.1 == a) && nd'.p.wheel.slots.flatten.count a > 0))) ++
                               (nd'.p.vpnIps.map (·.1)).filterMap (fun a =>
@@ -152,14 +155,16 @@ def step (s : St) (args : List String) (impl : String) : St × Out :=
           let swapAllowed : Option Bool := match pre.resolve op with
             | .swap _ li => (alookup li nd.main.indexes).map (fun hi => decide (hi.vpnAddrs.headD 0 ≥ nd.cfg.myAddrs.headD 0))
             | _ => none
-          let peerPairs : List (Nat × Nat) := match pre.resolve op with
-            | .deliver k => match pre.log[k]? with
-              | some (_, src, _) => ((pre.node? src).map (fun p => p.main.indexes.map (fun (li, h) => (li, h.remoteIndex)))).getD []
-              | none => []
-            | .dto k _ => match pre.log[k]? with
-              | some (_, src, _) => ((pre.node? src).map (fun p => p.main.indexes.map (fun (li, h) => (li, h.remoteIndex)))).getD []
-              | none => []
-            | _ => []
+          let srcOf : Option Nat := match pre.resolve op with
+            | .deliver k => (pre.log[k]?).map (fun e => e.2.1)
+            | .dto k _ => (pre.log[k]?).map (fun e => e.2.1)
+            | _ => none
+          -- what the sender of the delivered message holds, or held and removed itself (Props.C31.usable_on_complete)
+          let peerPairs : List (Nat × Nat) := match srcOf with
+            | some src =>
+              ((pre.node? src).map (fun p => p.main.indexes.map (fun (li, h) => (li, h.remoteIndex)))).getD [] ++
+              (s.removed.filter (·.1 == src)).map (fun r => (r.2.1, r.2.2))
+            | none => []
           let v31 := HsManager.c31 ctx kind (secs.headD "") swapAllowed peerPairs
           let verdict := if secs.length != 7 then (if impl == model then "ok" else "bad malformed-answer") else
             [v09, v10, v32, v31].foldl (fun acc v => if acc == "ok" then v else acc) "ok"
